@@ -130,7 +130,8 @@ Proof.
     try reflexivity; try discriminate; try (vm_compute; tauto); try (vm_compute; lia); try (vm_compute; intuition discriminate).
 Qed.
 
-(* Nesting.  Declaration trees - functions and variables (`T name ;`) inside namespaces nested to any depth (below the constructors' depth limit
+(* Nesting.  Declaration trees - functions, variables (`T name ;`) and forward declarations (`class X ;`, which is
+   also a well-formed variable declaration: the alternation keeps the alternative listed first) inside namespaces nested to any depth (below the constructors' depth limit
    of 200 levels) - printed with one blank before every token, come back from Module.parseString as exactly that tree:
    the namespace rule is chosen by the alternation (every other alternative fails on `namespace name {`: a function
    needs `(` after the name, a property `=` or `;`), its content is again a run of declarations that stops at the
@@ -142,18 +143,19 @@ Print Assumptions C01_items_roundtrip.
 
 Definition sample_tree : list item :=
   [ IFn (TPlain (tn [] "void") false PNone true, "f", [(TPlain (tn ["gtsam"] "Pose3") true PRef false, "p")]);
-    INs "outer" [ INs "inner" [ IFn (sample_type, "make", [(sample_type, "x")]); IVar sample_type "origin" ]; INs "empty" [];
+    IFwd false "Later";
+    INs "outer" [ INs "inner" [ IFn (sample_type, "make", [(sample_type, "x")]); IVar sample_type "origin" ]; INs "empty" [ IFwd true "Base" ];
                   IFn (TPlain (tn [] "Key") false PNone false, "g", []) ];
     IFn (TPlain (tn [] "double") false PNone true, "h", []) ]%string.
 Example C01_items_nonvacuous :
   (forall i, In i sample_tree -> idepth i < depth_fuel /\ wf_item i) /\
   print_items sample_tree =
-    (" void f ( const gtsam :: Pose3 & p ) ;" ++
+    (" void f ( const gtsam :: Pose3 & p ) ; class Later ;" ++
      " namespace outer { namespace inner {" ++
      " const gtsam :: Foo < int , std :: vector < Bar * > , const ns :: a :: K < double & > @ > & make" ++
      " ( const gtsam :: Foo < int , std :: vector < Bar * > , const ns :: a :: K < double & > @ > & x ) ;" ++
      " const gtsam :: Foo < int , std :: vector < Bar * > , const ns :: a :: K < double & > @ > & origin ; }" ++
-     " namespace empty { } Key g ( ) ; } double h ( ) ;")%string /\
+     " namespace empty { virtual class Base ; } Key g ( ) ; } double h ( ) ;")%string /\
   print_decls (map idecl sample_tree) = Some (print_items sample_tree).
 Proof.
   split; [|split; vm_compute; reflexivity].
